@@ -137,7 +137,7 @@ func compareDatum(d datum.Datum, r *ref, declared []float64) (what string, known
 
 func genBounds(g *ev.RNG) []float64 {
 	n := g.Range(2, 8)
-	pool := []float64{-1000, -1, -0.5, 0, 1e-9, 1e-7, 0.001, 0.5, 1, 2, 2.5, 4, 8, 10, 100, 1e6, 1e15, 1e300}
+	pool := []float64{-1000, -3.5, -2.5, -1, -0.5, 0, 1e-9, 1e-7, 0.001, 0.5, 1, 2, 2.5, 4, 8, 10, 100, 1e6, 1e15, 1e300}
 	set := map[float64]bool{}
 	for len(set) < n {
 		set[ev.PickOne(g, pool)] = true
@@ -158,7 +158,13 @@ func genObs(g *ev.RNG, bounds []float64, n int, finiteOnly bool) ([]float64, map
 		b := ev.PickOne(g, bounds)
 		var v float64
 		var c string
-		switch g.Intn(9) {
+		switch g.Intn(10) {
+		case 9:
+			// whole numbers next to the bound (these also go down the Int path)
+			v, c = ev.PickOne(g, []float64{math.Ceil(b), math.Floor(b), math.Trunc(b), math.Ceil(b) + 1, math.Floor(b) - 1}), "integer_near_bound"
+			if math.Abs(v) > 1e15 {
+				v = math.Trunc(float64(g.Range(-5, 5)))
+			}
 		case 0:
 			v, c = b, "at_bound"
 		case 1:
@@ -202,7 +208,7 @@ func boundsLit(b []float64) string {
 func TestC21(t *testing.T) {
 	r := ev.Start(t, "C21", "exploration")
 	defer r.Finish()
-	r.Rule("(declaration, observation sequence) cases: 2-8 sorted bounds from a pool incl. negative, 0, 1e-9..1e300; observations at / just below / just above bounds, negatives, ±0, ±Inf, NaN. Path A: datum.MakeBuckets+Observe with ranges built as the compiler builds them; path B: `histogram` declared in a compiled program (scalar and `by k`), values fed as log lines through float($2), then read from the datum, the JSON export and the Prometheus text export. Non-trivial: >=3 observations hitting >=2 different reference buckets; distinct by (bounds, observations).")
+	r.Rule("(declaration, observation sequence) cases: 2-8 sorted bounds from a pool incl. negative, 0, 1e-9..1e300; observations at / just below / just above bounds, negatives, ±0, ±Inf, NaN. Path A: datum.MakeBuckets+Observe with ranges built as the compiler builds them; path B: `histogram` declared in a compiled program (scalar and `by k`), values fed as log lines through float($2) and, for whole numbers, also through an Int-typed capture into a third histogram, then read from the datum, the JSON export and the Prometheus text export. Non-trivial: >=3 observations hitting >=2 different reference buckets; distinct by (bounds, observations).")
 	r.Assume("float sum compared bit-exactly in observation order (NaN-aware)", "log-line path: values printed with strconv 'g' -1 and parsed by the VM with ParseFloat (round-trips exactly)")
 	n := ev.Pick(3000, 200000)
 	rng := ev.NewRNG(ev.Seed(), "c21")
@@ -244,26 +250,48 @@ func TestC21(t *testing.T) {
 
 		// Path B (every case): through the compiler and VM
 		name := mt.UniqueName("c21p")
-		src := fmt.Sprintf("histogram h buckets %s\nhistogram hk by k buckets %s\n/^(\\S+) (\\S+)$/ {\n  h = float($2)\n  hk[$1] = float($2)\n}\n", boundsLit(declared), boundsLit(declared))
+		src := fmt.Sprintf("histogram h buckets %s\nhistogram hk by k buckets %s\nhistogram hi buckets %s\n/^(\\S+) (\\S+)$/ {\n  h = float($2)\n  hk[$1] = float($2)\n}\n/^int:(-?\\d+)$/ {\n  hi = $1\n}\n", boundsLit(declared), boundsLit(declared), boundsLit(declared))
 		p, err := mt.Load(name, src, mt.VMOpts{})
 		if err != nil {
 			r.Violation("compile-rejected", witness{"compiler", fss(declared), nil, err.Error(), nil, nil, src})
 			return
 		}
 		defer p.Close()
+		rfInt := newRef(declared) // what the Int-typed path must produce
 		for _, v := range obs {
 			if p.Line("f", "x "+fs(v)) {
 				report("vm", "runtime error on observation "+fs(v)+": "+p.VM.RuntimeErrorString(), false, nil, nil, src)
 				return
 			}
+			if v == math.Trunc(v) && math.Abs(v) < 1e15 {
+				// the same observation through an Int-typed capture (iset on a histogram)
+				if p.Line("f", "int:"+strconv.FormatInt(int64(v), 10)) {
+					report("vm", "runtime error on Int observation "+fs(v)+": "+p.VM.RuntimeErrorString(), false, nil, nil, src)
+					return
+				}
+				rfInt.observe(float64(int64(v)))
+				r.Count("int_typed_observations", 1)
+			}
 		}
 		r.Count("observations", len(obs))
-		var mh, mhk *metrics.Metric
+		var mh, mhk, mhi *metrics.Metric
 		for _, m := range p.Obj.Metrics {
-			if m.Name == "h" {
+			switch m.Name {
+			case "h":
 				mh = m
-			} else {
+			case "hk":
 				mhk = m
+			default:
+				mhi = m
+			}
+		}
+		if rfInt.count > 0 {
+			dhi, _ := mhi.GetDatum()
+			if what, known, got, want := compareDatum(dhi, rfInt, declared); what != "" {
+				report("compiled histogram fed by an Int-typed capture", what, known, got, want, src)
+				if !known {
+					return
+				}
 			}
 		}
 		dh, _ := mh.GetDatum()
